@@ -176,6 +176,38 @@ where StandardNormal: Distribution<F>, Exp1: Distribution<F>, Open01: Distributi
             out.push(json!({"op": "tri", "ft": F::NAME, "mn": mn, "mx": mx, "md": md, "fn": fnum, "xq": xq, "yq": yq, "words": rng.words(), "res": res}).to_string());
         } }
     }
+    // R1x / R2 beyond the scale range of envelope E, for the families whose sampler applies the scale as its LAST multiplication to a
+    // parameter-free draw (so exactness of a 2^k scale does not depend on the magnitude): scale 1 against scale 2^k on the same stream.
+    // Judged by TraceCompose "r1x": same words; a normal result whose exponent + k stays in the normal range is reproduced exactly; one
+    // whose exponent + k overflows becomes the infinity of the same sign (the rounding of the map).  Heavy-tailed shapes below E are included
+    // because there the scaled value overflows on ordinary draws while the unit-scale value does not.
+    {
+        let emax: i32 = if F::NAME == "f32" { 254 } else { 2046 };
+        let xk: [i32; 4] = if F::NAME == "f32" { [-120, -60, 100, 126] } else { [-1000, -500, 900, 1022] };
+        let ik: [i32; 4] = if F::NAME == "f32" { [-30, -26, 26, 30] } else { [-100, -60, 60, 100] };
+        let tiny_shape = if F::NAME == "f32" { f(0.05) } else { f(0.005) };
+        let xf: Vec<(&str, Vec<F>)> = vec![
+            ("Normal", vec![]), ("Cauchy", vec![]), ("Gumbel", vec![]), ("Exp", vec![]), ("SkewNormal", vec![f(1.0)]),
+            ("Frechet", vec![f(0.5)]), ("Frechet", vec![f(0.05)]), ("Gamma", vec![f(0.25)]), ("Gamma", vec![f(0.05)]), ("Gamma", vec![f(1.0)]), ("Gamma", vec![f(2.5)]),
+            ("Weibull", vec![f(0.3)]), ("Weibull", vec![f(0.05)]), ("Pareto", vec![f(0.5)]), ("Pareto", vec![tiny_shape]), ("Pareto", vec![f(0.05)]),
+            ("InverseGaussian", vec![f(1.0), f(3.0)]), ("InverseGaussian", vec![f(0.5), f(0.25)]),
+        ];
+        for (fam, sh) in &xf {
+            let Some(d1) = build::<F>(fam, sh, F::zero(), F::one()) else { continue };
+            for (si, (rng0, tag)) in streams(&mut rnd, nrand).into_iter().enumerate() {
+                let k = if *fam == "InverseGaussian" { ik[si % 4] } else { xk[si % 4] };
+                let two_k = F::of(2f64.powi(k));
+                let Some(d2) = build::<F>(fam, sh, F::zero(), two_k) else { continue };
+                let (mut ra, mut rb) = (rng0.clone(), rng0.clone());
+                match (guarded(|| d1.sample(&mut ra)), guarded(|| d2.sample(&mut rb))) {
+                    (Ok(a), Ok(bb)) => out.push(json!({"op": "r1x", "fam": fam, "ft": F::NAME, "k": k, "emax": emax, "res": "Ok", "wa": ra.words(), "wb": rb.words(),
+                        "a": a.bits.iter().map(|&x| decomp(a.kind, x)).collect::<Vec<_>>(), "b": bb.bits.iter().map(|&x| decomp(bb.kind, x)).collect::<Vec<_>>(),
+                        "show": [format!("{:e}", to_f::<F>(&a)), format!("{:e}", to_f::<F>(&bb))], "params": [format!("{:?}", sh.iter().map(|x| x.f64v()).collect::<Vec<_>>()), format!("2^{}", k)], "stream": tag}).to_string()),
+                    (x, y) => out.push(json!({"op": "r1x", "fam": fam, "ft": F::NAME, "k": k, "emax": emax, "res": format!("Panic: {:?} {:?}", x.err(), y.err()), "wa": 0, "wb": 0, "a": [], "b": [], "stream": tag}).to_string()),
+                }
+            }
+        }
+    }
     // from_zscore on the dyadic lattice k/16
     for _ in 0..(nrand * 4) {
         let (m, s, z) = (rnd.below(129) as i64 - 64, rnd.below(129) as i64 - 64, rnd.below(129) as i64 - 64);
